@@ -886,12 +886,12 @@ func init() {
 			}
 			if msg != "" && viol < 3 {
 				viol++
-				r.Violate(Violation{Kind: "e2e", Suite: "pool", Input: s, Observed: map[string]interface{}{"judgement": msg, "delivered": o}, Expected: "the rows and values of the in-memory table",
+				r.Violate(Violation{Kind: "e2e", Suite: "pool", Input: map[string]interface{}{"n": n, "spec": s}, Observed: map[string]interface{}{"judgement": msg, "delivered": o}, Expected: "the rows and values of the in-memory table",
 					Note: "one goroutine; the value pools of the model's fields are wrapped by an environment that overwrites every holder the moment it is Put back and while the reader is inside rows.Scan — what a concurrent reader holding that holder would do"})
 			}
 			// trace correspondence for result sets that go through scanIntoStruct once per row with ONE values slice
 			switch s.Path {
-			case "find.structs", "find.ptrs", "scan.structs", "scan.small":
+			case "find.structs", "find.ptrs", "scan.structs", "scan.small", "first", "take", "last":
 				if o.Err == "" {
 					cols := s.cols()
 					fs := []int{}
@@ -925,30 +925,24 @@ func init() {
 		}
 	})
 	replayers["C15/pool"] = func(r *Result, input json.RawMessage) {
-		var s c15WSpec
-		if err := json.Unmarshal(input, &s); err != nil {
+		var in struct {
+			N    int      `json:"n"`
+			Spec c15WSpec `json:"spec"`
+		}
+		if err := json.Unmarshal(input, &in); err != nil || in.N <= 0 {
 			r.Note("bad replay input: %v", err)
 			return
 		}
-		n := 14
-		w := c15WOpen(n, 2)
+		w := c15WOpen(in.N, 2)
 		defer w.close()
 		adv := &c15Adversary{inPool: map[interface{}]bool{}}
 		c15InstallPools(w.db, adv, &C15Wide{}, &c15WideSmall{})
 		c15GateHook.Store(func() { adv.gate() })
 		defer c15GateHook.Store(func() {})
-		// the generator's table size is not part of the spec: judge against the size that reproduces, 9 first
-		for _, size := range []int{9, 11, 14} {
-			w2 := c15WOpen(size, 2)
-			c15InstallPools(w2.db, adv, &C15Wide{}, &c15WideSmall{})
-			o := c15WRun(w2.db, s)
-			msg := c15WJudge(s, size, o)
-			w2.close()
-			r.Case("pool", canon(s), true)
-			if msg != "" {
-				r.Violate(Violation{Kind: "e2e", Suite: "pool", Input: s, Observed: map[string]interface{}{"judgement": msg, "delivered": o}, Expected: "the rows and values of the in-memory table"})
-				return
-			}
+		o := c15WRun(w.db, in.Spec)
+		r.Case("pool", canon(in.Spec), true)
+		if msg := c15WJudge(in.Spec, in.N, o); msg != "" {
+			r.Violate(Violation{Kind: "e2e", Suite: "pool", Input: in, Observed: map[string]interface{}{"judgement": msg, "delivered": o}, Expected: "the rows and values of the in-memory table"})
 		}
 	}
 	_ = runtime.Gosched
